@@ -9,7 +9,7 @@ use redis_sim::redis::{
     SortedSetDSTConfig, SortedSetDSTHarness, TransactionDSTConfig, TransactionDSTHarness,
 };
 use redis_sim::replication::crdt_dst::{CRDTDSTConfig, GCounterDSTHarness, ORSetDSTHarness, PNCounterDSTHarness, VectorClockDSTHarness};
-use redis_sim::simulator::dst_integration::RedisDSTSimulation;
+use redis_sim::simulator::dst_integration::{KeyDistribution, RedisDSTSimulation};
 use redis_sim::simulator::partition_tests::{run_partition_test, PartitionConfig};
 use redis_sim::simulator::{DSTConfig, DSTSimulation, PipelineSimulator};
 use redis_sim::streaming::compaction_dst::{CompactionDSTConfig, CompactionDSTHarness};
@@ -120,6 +120,8 @@ pub const HARNESSES: &[&str] = &[
     "crdt_orset/chaos", "crdt_vectorclock/moderate", "streaming/calm", "streaming/moderate", "streaming/chaos", "wal/baseline", "wal/crash_only", "wal/chaos",
     "compaction/calm", "compaction/aggressive", "compaction/chaos", "dst/calm", "dst/chaos", "redis_dst/zipf", "redis_dst/uniform", "partition/isolate",
     "partition/split_brain", "partition/ring", "pipeline/default",
+    // configurations other than the presets (the harnesses take them; a result is a function of seed AND configuration)
+    "redis_dst/zipf_hot", "redis_dst/zipf_flat", "redis_dst/zipf_small", "streaming/noflush", "compaction/noflush",
 ];
 
 macro_rules! stepwise {
@@ -208,12 +210,15 @@ fn one(out: &mut Out, name: &str, seed: u64, ops: usize, tag: &str, rt: &tokio::
         "crdt_orset/calm" => crdt!(rec, ORSetDSTHarness, CRDTDSTConfig::calm(seed), ops),
         "crdt_orset/chaos" => crdt!(rec, ORSetDSTHarness, CRDTDSTConfig::chaos(seed), ops),
         "crdt_vectorclock/moderate" => crdt!(rec, VectorClockDSTHarness, CRDTDSTConfig::moderate(seed), ops),
-        "streaming/calm" | "streaming/moderate" | "streaming/chaos" => {
+        "streaming/calm" | "streaming/moderate" | "streaming/chaos" | "streaming/noflush" => {
             let cfg = match name {
                 "streaming/calm" => StreamingDSTConfig::calm(seed),
                 "streaming/moderate" => StreamingDSTConfig::moderate(seed),
+                // nothing is ever flushed: the write buffer fills up until it pushes back
+                "streaming/noflush" => StreamingDSTConfig { flush_probability: 0.0, ..StreamingDSTConfig::calm(seed) },
                 _ => StreamingDSTConfig::chaos(seed),
             };
+            let ops = if name == "streaming/noflush" { ops.max(4000) } else { ops };
             rt.block_on(async {
                 let mut h = StreamingDSTHarness::new(cfg).await;
                 for _ in 0..10 {
@@ -236,12 +241,14 @@ fn one(out: &mut Out, name: &str, seed: u64, ops: usize, tag: &str, rt: &tokio::
             let r = WalDSTHarness::new(seed, cfg).run();
             rec.fin(dbg(&r), format!("passed={} error={:?}", r.passed, r.error_message));
         }
-        "compaction/calm" | "compaction/aggressive" | "compaction/chaos" => {
+        "compaction/calm" | "compaction/aggressive" | "compaction/chaos" | "compaction/noflush" => {
             let cfg = match name {
                 "compaction/calm" => CompactionDSTConfig::calm(seed),
                 "compaction/aggressive" => CompactionDSTConfig::aggressive(seed),
+                "compaction/noflush" => CompactionDSTConfig { flush_probability: 0.0, compact_probability: 0.0, ..CompactionDSTConfig::calm(seed) },
                 _ => CompactionDSTConfig::chaos(seed),
             };
+            let ops = if name == "compaction/noflush" { ops.max(4000) } else { ops };
             rt.block_on(async {
                 let mut h = CompactionDSTHarness::new(cfg).await;
                 for _ in 0..10 {
@@ -264,8 +271,14 @@ fn one(out: &mut Out, name: &str, seed: u64, ops: usize, tag: &str, rt: &tokio::
             let r = sim.finalize();
             rec.fin(dbg(r), format!("success={}", r.is_success()));
         }
-        "redis_dst/zipf" | "redis_dst/uniform" => {
-            let mut sim = if name == "redis_dst/zipf" { RedisDSTSimulation::new(seed, 3) } else { RedisDSTSimulation::new_uniform(seed, 3, 20) };
+        "redis_dst/zipf" | "redis_dst/uniform" | "redis_dst/zipf_hot" | "redis_dst/zipf_flat" | "redis_dst/zipf_small" => {
+            let mut sim = match name {
+                "redis_dst/zipf" => RedisDSTSimulation::new(seed, 3),
+                "redis_dst/zipf_hot" => RedisDSTSimulation::with_key_distribution(seed, 3, KeyDistribution::Zipfian { num_keys: 1000, skew: 1.5 }),
+                "redis_dst/zipf_flat" => RedisDSTSimulation::with_key_distribution(seed, 3, KeyDistribution::Zipfian { num_keys: 1000, skew: 0.5 }),
+                "redis_dst/zipf_small" => RedisDSTSimulation::with_key_distribution(seed, 3, KeyDistribution::Zipfian { num_keys: 10, skew: 1.0 }),
+                _ => RedisDSTSimulation::new_uniform(seed, 3, 20),
+            };
             let r = dbg(sim.run(ops));
             let conv = sim.check_convergence();
             let st = dbg(&sim.stats());
